@@ -109,6 +109,14 @@ def _peer_token(mant, expo, neg, style):
     if style == "c":                # '-1.234567E-04'  : mantissa in [1, 10)
         s = f"{mant:07d}"
         return f"{sign}{s[0]}.{s[1:]}e{expo - 1:+03d}"
+    # further legitimate spellings of the same decimal number (value = 0.<mant> * 10**expo)
+    if style in ("int2", "int4"):   # '-12.34567E-05', '1234.567E-7': k digits before the point
+        k = int(style[3])
+        s = f"{mant:07d}"
+        ip = str(int(s[:k]))        # no padding zeros in the integer part ('0' for the zero sample)
+        if style == "int2":
+            return f"{sign}{ip}.{s[k:]}E{expo - k:+03d}"
+        return f"{sign}{ip}.{s[k:]}E{expo - k:d}"       # int4: exponent without padding and without '+'
     raise KeyError(style)
 
 
